@@ -82,6 +82,7 @@ func (ex *Exec) evalAtHeader(l *Loop, overlay map[ssa.Value]Val, st *State, e Ex
 	ev := ex.newEval(st, ex.entry)
 	ex.bindParams(ev)
 	ev.point = &progPoint{block: l.Header, idx: len(l.Header.Instrs)}
+	ev.loopOld = ex.loopEntry[l]
 	return ev.evalBool(e)
 }
 
@@ -96,6 +97,10 @@ func (ex *Exec) loopHead(l *Loop, b *ssa.BasicBlock, edges []edge, reachIn strin
 	if spec == nil && !vc.discover && (ex.parent == nil && vc.spec != nil) {
 		vc.errorf("loop %d of %s has no invariant block", l.Ordinal, vc.key)
 	}
+	if ex.loopEntry == nil {
+		ex.loopEntry = map[*Loop]*State{}
+	}
+	ex.loopEntry[l] = st.clone()
 	// 1. invariants on entry
 	if spec != nil && !vc.discover {
 		overlay := ex.scratchHeader(l, phiIn, st)
@@ -192,7 +197,9 @@ func (ex *Exec) loopBack(l *Loop, from, header *ssa.BasicBlock) {
 					}
 					if gt, ok := vc.ghostSort[name]; ok {
 						vc.comp("G:"+name, vc.vtSort(gt))
-						ex.curBlock = from
+						// attributed to the header of *this* loop: a back-edge that leaves an inner loop must not make
+						// the inner loop havoc the ghost state of the outer one
+						ex.curBlock = header
 						ex.noteWrite("G:" + name)
 					}
 				}
@@ -330,6 +337,10 @@ func shortKey(k string) string {
 
 // applyGhostUpdate: "lhs = rhs [when cond]" ; lhs is name or name[idx]...
 func (ex *Exec) applyGhostUpdate(g *Clause, st *State, pt *progPoint, guard string) {
+	ex.applyGhostUpdateX(g, st, pt, guard, nil)
+}
+
+func (ex *Exec) applyGhostUpdateX(g *Clause, st *State, pt *progPoint, guard string, extra map[string]TV) {
 	text := g.Text
 	cond := ""
 	if k := strings.LastIndex(text, " when "); k >= 0 {
@@ -350,6 +361,9 @@ func (ex *Exec) applyGhostUpdate(g *Clause, st *State, pt *progPoint, guard stri
 	ev := ex.newEval(st, ex.entry)
 	ex.bindParams(ev)
 	ev.point = pt
+	for k, v := range extra {
+		ev.vars[k] = v
+	}
 	nerr := len(ex.vc.errs)
 	c := "true"
 	if cond != "" {
